@@ -24,7 +24,7 @@ ASSUMPTIONS = [
     "a multiplexer case without structure followed by an implicitly positioned parameter is generated only when "
     "switch key end == MUX BYTE-POSITION (cursor unambiguous) unless option mux_nostruct_anywhere",
 ]
-MUST_HIT = ["envdata", "static-table-row", "table", "dtc", "emfield", "nrc", "pk:system", "bitpos", "lowhigh-multibyte", "negative", "struct", "BYTE-SIZE", "sfield", "dlfield", "mux", "eopf",
+MUST_HIT = ["mux-default-selected", "mux-default-by-name", "envdata", "static-table-row", "table", "dtc", "emfield", "nrc", "pk:system", "bitpos", "lowhigh-multibyte", "negative", "struct", "BYTE-SIZE", "sfield", "dlfield", "mux", "eopf",
             "dct:minmax", "dct:leading", "dct:paramlen", "packed-subbyte", "out-of-order", "implicit-pos",
             "compu:LINEAR", "compu:TEXTTABLE", "default-value", "pk:matchreq", "service-path", "truncation-checked"]
 
@@ -197,7 +197,7 @@ def run_shard(spec, seed, tier):
     res = core.ShardResult()
     kf = known.load(PROPERTY)
     _, _, variant = spec
-    opts = {"mux_nostruct_anywhere": True, "static_table_row": True} if variant == "muxfree" else None
+    opts = {"mux_nostruct_anywhere": True, "static_table_row": True, "mux_default_by_name": True} if variant == "muxfree" else None
 
     def body(case):
         out = []
